@@ -226,8 +226,9 @@ def load_performance(
             merge_tracks=merge_tracks,
         )
 
-        # set threshold for sustain pedal
-        performance[0].sustain_pedal_threshold = pedal_threshold
+        # set threshold for sustain pedal (in every part)
+        for ppart in performance:
+            ppart.sustain_pedal_threshold = pedal_threshold
 
         if first_note_at_zero:
             # the parts stay together: all are shifted by the onset of
